@@ -334,6 +334,12 @@ fn check_in(sb: &Sandbox, sc: &Scenario, stats: &mut Stats) -> Result<(), Fail> 
         Err(e) => return Err(Fail::Harness(format!("baseline run crashed: {}", e))),
     };
     let n = base.trace_names.len();
+    // exhaustive enumeration is quadratic in the trace length: a call that needs
+    // thousands of system calls (4 KiB paths) is left to the sampled checks
+    if n > 1500 && sc.only.is_none() {
+        stats.count("scenarios_skipped_trace_over_1500_syscalls", 1);
+        return Ok(());
+    }
     let comps = match &sc.step {
         WStep::Root { op, .. } => op.paths().iter().map(|p| p.0.split(|&c| c == b'/').count()).sum::<usize>(),
         _ => 4,
